@@ -3,6 +3,7 @@
 (* C05 - two indexed reflections determine the orientation (Busing-Levy).  *)
 (*                                                                         *)
 (* MODELS   ImageD11/unitcell.py  (function : lines at the checked tree)   *)
+(*   orient_BL      115-133   the same formula in python (bound: harness)  *)
 (*   cosangles_many 136-149   cos of the angle of every hkl pair           *)
 (*   getanglehkls   497-518   per ring pair cache of filter_pairs          *)
 (*   orient         520-580   nearest / crange lookup, UBIlist             *)
@@ -11,6 +12,8 @@
 (*                            class of "indexes the same"; block ends 678  *)
 (*   ubi_equiv      727-746   de-duplication of the candidates             *)
 (*          src/cdiffraction.c 240-275 quickorient (float triad, harness)  *)
+(*          ImageD11/indexing.py 58-75 ubi_fit_2pks (re-fit of a UBI to    *)
+(*          its two reflections; bound by the harness as a fixed point)    *)
 (*                                                                         *)
 (* ARITHMETIC  a cell is an integer symmetric positive definite reciprocal *)
 (* metric G ( = gi * scale ); Q(h) = h.G.h .  A ring is the set of allowed *)
@@ -25,8 +28,8 @@
 (* SCALE  The instance set is Cells x Scales: the cell (id, k) has the     *)
 (* reciprocal metric gi = G * 0.01 * 4^-k, i.e. the lattice of `id` with   *)
 (* every edge multiplied by the exact power of two 2^k (k = 0: edges of    *)
-(* 2-10 A; Scales reaches from ~0.3-0.6 A to ~1300 A; the long-axis forms  *)
-(* tetL / hexL / ortL put a 4 : 1 ... 5 : 1 axis ratio on top of that).    *)
+(* 2-10 A; k = -3: 0.25-1.25 A; k = 7: 260-1280 A; the long-axis forms     *)
+(* tetL / hexL / ortL put a 2.5 : 1 ... 5 : 1 axis ratio on top of that).  *)
 (* Every decision of the machine below is a comparison of quantities that  *)
 (* are homogeneous of degree 0 in the metric (cosines, ratios of Q), so    *)
 (* the rings, Aut+, the sorted order, the blocks, the kept list, the       *)
@@ -61,10 +64,11 @@
 (* VARIABLES                                                               *)
 (*   cs    : the case [cell (record), r1, r2, tie, bug, t, ks] (t = trace  *)
 (*           line, ks = the scale exponents the case stands for)           *)
-(*   tab   : tables of the case, computed once in Init: [q1, q2, h1, h2,   *)
+(*   tab   : tables of the case, computed once (Tables): [q1, q2, h1, h2,  *)
 (*           aut] (ring Q values, ring hkl sequences, Aut+(G)); in the     *)
 (*           ghost "cell" states [qs, rings, aut] of the whole cell        *)
-(*   pc    : "cell"/"celldone" (ghost: print the cell table) | "sort" |    *)
+(*   pc    : "celltab" / "cell" / "celldone" (ghost: the cell table) |     *)
+(*           "tab" (tables to be made) | "sort" |                          *)
 (*           "cluster" | "open" | "test" | "crash" | "done" | "cand" |     *)
 (*           "out" | "badtrace" | "cache" (second machine, see below)      *)
 (*   order : the sorted pairs, order[x+1] = <<N, f, ha, hb>> : c2as[x],    *)
@@ -79,7 +83,8 @@
 (*           kept (`best`), classes left by ubi_equiv                      *)
 (*                                                                         *)
 (* ACTIONS (one per branch of filter_pairs' loop body / stage of orient)   *)
-(*   PrintCell | SortPairs | Cluster (dc, inds; validates the order) |     *)
+(*   Tables | PrintCell | SortPairs | Cluster (dc, inds; validates the     *)
+(*   order) |                                                              *)
 (*   SkipBlock (|cos| >= 0.98) | KeepSingle (len(c) = 1) | KeepCrash       *)
 (*   (len(c) = 0: c.max() raises) | KeepFirst | TestSame | TestNew |       *)
 (*   CloseBlock | Finish | Lookup | Dedup                                  *)
@@ -92,7 +97,7 @@
 (* TieRules ("fwd" flat index ascending, "rev" descending) - the property  *)
 (* is checked for both.  MODE = "trace": the sorted order recorded from    *)
 (* the real code (ndjson file IOEnv.TRACE_FILE, one line per ring pair:    *)
-(* {cell, r1, r2, ks, order:[[ha,hb],..]}, ks = the scales of the cell at   *)
+(* {cell, r1, r2, ks, order:[[ha,hb],..]}, ks = the scales of the cell at  *)
 (* which exactly this order was recorded) is validated (ValidOrder: it is  *)
 (* a permutation of ring1 x ring2 and N never decreases) and the model is  *)
 (* run on it; the harness compares the kept list, order included.  An      *)
@@ -167,7 +172,7 @@ CellsAll == {
    C("triQ",  Sym(3,4,5,1,-1,1), "P", 2, 1),
    \* long-axis forms (axis ratio 4, 4.9, 5): low order rings are the (00l) / (h00) row, one short reciprocal axis
    C("tetL",  Sym(16,16,1,0,0,0), "P", 4, 8),        \* c = 4 a ; Q(004) = Q(100)
-   C("hexL",  Sym(8,8,1,0,0,4), "P", 3, 12),         \* c = 2.45 a sqrt(4) ; Q(003) = Q(101)
+   C("hexL",  Sym(8,8,1,0,0,4), "P", 3, 12),         \* c = 2.45 a ; Q(003) = Q(101)
    C("ortL",  Sym(1,9,25,0,0,0), "P", 3, 4) }        \* a = 3 b = 5 c ; Q(300) = Q(010)
 Cells_q == { c \in CellsAll : c.id \in {"cubF", "hexP", "monP", "triP", "monC", "rhoP", "ortPs", "tetL"} }
 Cells_t == CellsAll
@@ -189,6 +194,9 @@ QF(G, u, v) == Dot(u, MV(G, v))
 PD(G) == G[1][1] > 0 /\ G[1][1]*G[2][2] - G[1][2]*G[1][2] > 0 /\ Det(G) > 0
 AdjD(G) == LET A == Adj(G) IN <<A[1][1], A[2][2], A[3][3]>>
 ASSUME \A c \in CellsAll : IsSym(c.G) /\ PD(c.G)
+\* k = -3 : edges 0.25 - 1.25 A ... k = 7 : 260 - 1280 A (tetL: a = 320 A, c = 1280 A)
+Scales_q == {-3, 0, 2, 3, 4, 5, 7}
+Scales_t == {-3, -1, 0, 2, 3, 4, 5, 7}
 ASSUME Scales \subseteq -8..12 /\ 0 \in Scales
 ScaleSeq == SetToSortSeq(Scales, <)
 \* integer multiples of the metric on which TLC checks the integer side of the scale law (m.G = the cell with
@@ -239,6 +247,8 @@ AutGroupFor(c, A) ==
 (* ---------------- cases ------------------------------------------------------------------------- *)
 Traces == IF MODE = "trace" THEN ndJsonDeserialize(IOEnv.TRACE_FILE) ELSE <<>>
 NT == Len(Traces)
+\* a trace line stands for the scales of the cell at which exactly this order was recorded
+ASSUME \A t \in 1..NT : Traces[t].ks # <<>> /\ \A i \in DOMAIN Traces[t].ks : Traces[t].ks[i] \in Scales
 
 RingPairs == CASE PairSel = "all"   -> (1..NR) \X (1..NR)
                [] PairSel = "upper" -> { rp \in (1..NR) \X (1..NR) : rp[1] <= rp[2] }
@@ -247,14 +257,15 @@ RingPairs == CASE PairSel = "all"   -> (1..NR) \X (1..NR)
 VARIABLES cs, tab, pc, order, inds, bi, p, j, kept, first, obs, lmode, cand, ubil
 vars == <<cs, tab, pc, order, inds, bi, p, j, kept, first, obs, lmode, cand, ubil>>
 
-\* The tables of a case are computed once, in Init, and carried in the state variable `tab`
-\* (TLC evaluates definitions lazily and would recompute rings and group in every state):
+\* The tables of a case are computed once, by the first action (Tables: TLC generates initial states in one thread,
+\* successors in all workers), and carried in the state variable `tab` (TLC evaluates definitions lazily and would
+\* recompute rings and group in every state):
 \*   ghost "cell" states : [qs, rings, aut]      case states : [q1, q2, h1, h2, aut]
 \* (`\E v \in {e}` binds v to the evaluated e.)
 CellTab(c) == \E qs \in {RingQs(c)} : \E A \in {AutP(c.G)} :
-                 tab = [qs |-> qs, rings |-> [r \in 1..NR |-> RingSeq(c, qs[r])], aut |-> A]
+                 tab' = [qs |-> qs, rings |-> [r \in 1..NR |-> RingSeq(c, qs[r])], aut |-> A]
 CaseTab(c, r1, r2) == \E qs \in {RingQs(c)} : \E A \in {AutP(c.G)} :
-                 tab = [q1 |-> qs[r1], q2 |-> qs[r2], h1 |-> RingSeq(c, qs[r1]), h2 |-> RingSeq(c, qs[r2]), aut |-> A]
+                 tab' = [q1 |-> qs[r1], q2 |-> qs[r2], h1 |-> RingSeq(c, qs[r1]), h2 |-> RingSeq(c, qs[r2]), aut |-> A]
 
 cell == cs.cell                             \* the cell record
 G0 == cell.G
@@ -300,23 +311,24 @@ IndsNow(bug) ==
 
 Blank == /\ order = <<>> /\ inds = <<>> /\ bi = 0 /\ p = 0 /\ j = 0 /\ kept = <<>> /\ first = 0
          /\ obs = 0 /\ lmode = 0 /\ cand = <<>> /\ ubil = {}
-Init == /\ Blank
-        /\ \/ /\ pc = "cell" /\ MODE = "rule"
-              /\ cs \in [cell : Cells, r1 : {0}, r2 : {0}, tie : {"-"}, bug : {FALSE}, t : {0}]
-              /\ CellTab(cs.cell)
-           \/ /\ pc = "sort" /\ MODE = "rule"
+Init == /\ Blank /\ tab = <<>>
+        /\ \/ /\ pc = "celltab" /\ MODE = "rule"
+              /\ cs \in [cell : Cells, r1 : {0}, r2 : {0}, tie : {"-"}, bug : {FALSE}, t : {0}, ks : {ScaleSeq}]
+           \/ /\ pc = "tab" /\ MODE = "rule"
               /\ \E rp \in RingPairs :
                    cs \in [cell : Cells, r1 : {rp[1]}, r2 : {rp[2]}, tie : TieRules,
-                           bug : BugEnds, t : {0}]
-              /\ CaseTab(cs.cell, cs.r1, cs.r2)
-           \/ /\ pc = "sort" /\ MODE = "trace"
+                           bug : BugEnds, t : {0}, ks : {ScaleSeq}]
+           \/ /\ pc = "tab" /\ MODE = "trace"
               /\ \E t \in 1..NT :
                    cs \in [cell : {CellById(Traces[t].cell)}, r1 : {Traces[t].r1}, r2 : {Traces[t].r2}, tie : {"trace"},
-                           bug : BugEnds, t : {t}]
-              /\ CaseTab(cs.cell, cs.r1, cs.r2)
+                           bug : BugEnds, t : {t}, ks : {Traces[t].ks}]
 
 keepLater == <<obs, lmode, cand, ubil>>
 
+Tables == \/ /\ pc = "celltab" /\ CellTab(cs.cell) /\ pc' = "cell"
+             /\ UNCHANGED <<cs, order, inds, bi, p, j, kept, first, keepLater>>
+          \/ /\ pc = "tab" /\ CaseTab(cs.cell, cs.r1, cs.r2) /\ pc' = "sort"
+             /\ UNCHANGED <<cs, order, inds, bi, p, j, kept, first, keepLater>>
 PrintCell == /\ pc = "cell" /\ pc' = "celldone"
              /\ UNCHANGED <<cs, tab, order, inds, bi, p, j, kept, first, keepLater>>
 
@@ -397,7 +409,7 @@ Dedup  == /\ pc = "cand"
           /\ pc' = "out"
           /\ UNCHANGED <<cs, tab, order, inds, bi, p, j, kept, first, obs, lmode, cand>>
 
-Next == PrintCell \/ SortPairs \/ Cluster \/ SkipBlock \/ KeepSingle \/ KeepCrash \/ KeepFirst
+Next == Tables \/ PrintCell \/ SortPairs \/ Cluster \/ SkipBlock \/ KeepSingle \/ KeepCrash \/ KeepFirst
         \/ TestSame \/ TestNew \/ CloseBlock \/ Finish \/ Lookup \/ Dedup
 Spec == Init /\ [][Next]_vars
 
@@ -456,22 +468,33 @@ TrueFound   == (pc = "out" /\ lmode > 0 /\ ~cs.bug) =>
 \* constant-level laws, evaluated once per cell (in the ghost "cell" states)
 CellLaws == pc = "celldone" => /\ Len(tab.qs) = NR /\ BoxOK(G0, cell.box, tab.qs[NR])
                                /\ AutGroupFor(cell, tab.aut)
+\* the integer side of the scale law, per cell: on the metric m.G the ring Q values are m times those of G, the
+\* rings are the same sets in the same enumeration, Aut+ is the same group, every sort key is m times the key
+\* (same order, same blocks) and the |cos| < 0.98 test gives the same answer
+ScaleLaw == pc = "celldone" => \A m \in ScaleMul : \E c2 \in {ScaledCell(cell, m)} : \E qs2 \in {RingQs(c2)} :
+               /\ qs2 = [r \in 1..NR |-> m * tab.qs[r]]
+               /\ \A r \in 1..NR : RingSeq(c2, qs2[r]) = tab.rings[r]
+               /\ AutP(c2.G) = tab.aut
+               /\ \A r1, r2 \in 1..NR : \A a \in Range(tab.rings[r1]), b \in Range(tab.rings[r2]) :
+                     \E n \in {QF(G0, a, b)} :
+                       /\ QF(c2.G, a, b) = m * n
+                       /\ (2500*(m*n)*(m*n) < 2401*qs2[r1]*qs2[r2]) <=> (2500*n*n < 2401*tab.qs[r1]*tab.qs[r2])
 \* the harness' crange values never put a kept pair exactly on the boundary |cos_k - cos_obs| = crange
 \* (there the float comparison of the code would be decided by rounding)
 NoBoundaryTie == pc = "cand" => \A k \in DOMAIN kept :
                     lmode = 0 \/ 1000000*(KeptN(k) - obs)*(KeptN(k) - obs) # lmode*lmode*Q1*Q2
-TypeOK == /\ pc \in {"cache", "cell", "celldone", "sort", "cluster", "open", "test", "crash", "done", "cand", "out", "badtrace"}
+TypeOK == /\ pc \in {"cache", "celltab", "tab", "cell", "celldone", "sort", "cluster", "open", "test", "crash", "done", "cand", "out", "badtrace"}
           /\ pc \in {"open", "test"} => (p <= N /\ (bi <= Len(inds) => p <= I))
 
 (* ---------------- emission --------------------------------------------------------------------------- *)
 Seq2(S) == SetToSortSeq(S, <)
 EmitCell == pc = "celldone" =>
    PrintT("@@" \o ToJson([kind |-> "cell", cell |-> cs.cell.id, G |-> cell.G, cen |-> cell.cen,
-        qs |-> tab.qs, rings |-> tab.rings, aut |-> SetToSeq(tab.aut),
+        qs |-> tab.qs, rings |-> tab.rings, aut |-> SetToSeq(tab.aut), scales |-> ScaleSeq,
         rots |-> SetToSeq({ [num |-> RotNum(t), den |-> RotDen(t)] : t \in Rots })]))
 EmitDone == pc = "done" =>
    PrintT("@@" \o ToJson([kind |-> "kept", cell |-> cs.cell.id, r1 |-> cs.r1, r2 |-> cs.r2, tie |-> cs.tie,
-        bug |-> cs.bug, t |-> cs.t, n |-> N, q1 |-> Q1, q2 |-> Q2, inds |-> inds,
+        bug |-> cs.bug, t |-> cs.t, ks |-> cs.ks, n |-> N, q1 |-> Q1, q2 |-> Q2, inds |-> inds,
         kept |-> kept, keptpairs |-> [k \in DOMAIN kept |-> Ord(kept[k])],
         keptn |-> [k \in DOMAIN kept |-> KeptN(k)],
         nk |-> [x \in 1..N |-> NK(x - 1)],
@@ -480,11 +503,11 @@ EmitDone == pc = "done" =>
         complete |-> CompleteNow, irredundant |-> IrredundantNow]))
 EmitOut == pc = "out" =>
    PrintT("@@" \o ToJson([kind |-> "lookup", cell |-> cs.cell.id, r1 |-> cs.r1, r2 |-> cs.r2, tie |-> cs.tie,
-        bug |-> cs.bug, t |-> cs.t, obs |-> obs, cr |-> lmode, cand |-> cand,
+        bug |-> cs.bug, t |-> cs.t, ks |-> cs.ks, obs |-> obs, cr |-> lmode, cand |-> cand,
         classes |-> SetToSeq({ Seq2(cl) : cl \in ubil })]))
 EmitCrash == pc = "crash" =>
    PrintT("@@" \o ToJson([kind |-> "crash", cell |-> cs.cell.id, r1 |-> cs.r1, r2 |-> cs.r2, tie |-> cs.tie,
-        bug |-> cs.bug, t |-> cs.t, kept |-> kept]))
+        bug |-> cs.bug, t |-> cs.t, ks |-> cs.ks, kept |-> kept]))
 EmitBad == pc = "badtrace" =>
-   PrintT("@@" \o ToJson([kind |-> "badtrace", cell |-> cs.cell.id, r1 |-> cs.r1, r2 |-> cs.r2, t |-> cs.t]))
+   PrintT("@@" \o ToJson([kind |-> "badtrace", cell |-> cs.cell.id, r1 |-> cs.r1, r2 |-> cs.r2, t |-> cs.t, ks |-> cs.ks]))
 =============================================================================
